@@ -226,7 +226,7 @@ func runC01(c *Ctx) {
 		r.Add("R4", fmt.Sprintf("cmd-store#%d", i+1), c.InstrPos(s), c.FuncKey(s.Parent()), "verb is a constant or upper-cased", ok, why)
 	}
 	// ---- R6
-	c.trailingRule(pl, lineAlloc, param)
+	c.trailingRule("R6", pl, lineAlloc, param)
 
 	// ---- R1 (b): nothing but the replacer transforms a tag between the ';' split and the '=' split
 	for _, fn := range plReach.Order {
@@ -458,7 +458,7 @@ func (c *Ctx) varargElemsOrdered(v ssa.Value) []ssa.Value {
 
 // trailingRule (C01.R6): args = Fields(head) (+ trailing iff the " :" split found a second part),
 // for the idioms parts := strings.SplitN(rest, " :", 2) and head, trailing, found := strings.Cut(rest, " :").
-func (c *Ctx) trailingRule(pl *ssa.Function, lineAlloc *ssa.Alloc, param *ssa.Parameter) {
+func (c *Ctx) trailingRule(rule string, pl *ssa.Function, lineAlloc *ssa.Alloc, param *ssa.Parameter) {
 	r := c.R
 	var split *ssa.Call
 	isCut, isIdx := false, false
@@ -485,7 +485,7 @@ func (c *Ctx) trailingRule(pl *ssa.Function, lineAlloc *ssa.Alloc, param *ssa.Pa
 		}
 	})
 	if split == nil {
-		r.Add("R6", "trailing-split", c.Pos(pl.Pos()), c.FuncKey(pl), "the middle/trailing split is strings.SplitN(rest, \" :\", 2), strings.Cut(rest, \" :\") or strings.Index(rest, \" :\") with slicing", false, "no recognised idiom: undecided (fail closed)")
+		r.Add(rule, "trailing-split", c.Pos(pl.Pos()), c.FuncKey(pl), "the middle/trailing split is strings.SplitN(rest, \" :\", 2), strings.Cut(rest, \" :\") or strings.Index(rest, \" :\") with slicing", false, "no recognised idiom: undecided (fail closed)")
 		return
 	}
 	rest := split.Call.Args[0]
@@ -534,7 +534,7 @@ func (c *Ctx) trailingRule(pl *ssa.Function, lineAlloc *ssa.Alloc, param *ssa.Pa
 		}
 	})
 	if app == nil {
-		r.Add("R6", "trailing-append", c.InstrPos(split), c.FuncKey(pl), "the trailing parameter is appended to Fields(head)", false, "append(Fields(head), trailing) not found: undecided (fail closed)")
+		r.Add(rule, "trailing-append", c.InstrPos(split), c.FuncKey(pl), "the trailing parameter is appended to Fields(head)", false, "append(Fields(head), trailing) not found: undecided (fail closed)")
 		return
 	}
 	// the append is control dependent exactly on "a second part exists"
@@ -579,7 +579,7 @@ func (c *Ctx) trailingRule(pl *ssa.Function, lineAlloc *ssa.Alloc, param *ssa.Pa
 			}
 		}
 	}
-	r.Add("R6", "trailing-append", c.InstrPos(app), c.FuncKey(pl), "trailing parameter appended iff a \" :\" section exists", ok, why)
+	r.Add(rule, "trailing-append", c.InstrPos(app), c.FuncKey(pl), "trailing parameter appended iff a \" :\" section exists", ok, why)
 	// the result feeds Cmd/Args: args phi = {app, Fields(head)}
 	var argsPhi *ssa.Phi
 	for _, ref := range *app.Referrers() {
@@ -598,9 +598,9 @@ func (c *Ctx) trailingRule(pl *ssa.Function, lineAlloc *ssa.Alloc, param *ssa.Pa
 			}
 		}
 	}
-	r.Add("R6", "args-sources", c.InstrPos(app), c.FuncKey(pl), "without a trailing section the arguments are Fields(head)", okPhi, "argument list is phi(append(Fields(head), trailing), Fields(head))")
+	r.Add(rule, "args-sources", c.InstrPos(app), c.FuncKey(pl), "without a trailing section the arguments are Fields(head)", okPhi, "argument list is phi(append(Fields(head), trailing), Fields(head))")
 	okSrc := c.suffixOf(split.Call.Args[0], param, 0)
-	r.Add("R6", "split-operand", c.InstrPos(split), c.FuncKey(pl), "the split is applied to a suffix of the received line", okSrc, "operand derives from the parameter by s[i:] slicing / the remainder of strings.Cut")
+	r.Add(rule, "split-operand", c.InstrPos(split), c.FuncKey(pl), "the split is applied to a suffix of the received line", okSrc, "operand derives from the parameter by s[i:] slicing / the remainder of strings.Cut")
 }
 
 // isElemOf: v is the load of element idx of the slice value sl.
@@ -1147,4 +1147,27 @@ func (c *Ctx) constTableValue(v ssa.Value) bool {
 		})
 	}
 	return n > 0 && allConst
+}
+
+// parserTrailingRule runs the trailing-parameter rule of C01 under another
+// property's rule id (the handlers of that property index line.Args).
+func (c *Ctx) parserTrailingRule(rule string) {
+	r := c.R
+	pl := c.Func(c.Client, "ParseLine")
+	if !r.Anchor(rule, "ParseLine", pl != nil) {
+		return
+	}
+	var lineAlloc *ssa.Alloc
+	funcInstrs(pl, func(in ssa.Instruction) {
+		if rt, ok := in.(*ssa.Return); ok && len(rt.Results) == 1 {
+			if al, ok := rt.Results[0].(*ssa.Alloc); ok {
+				lineAlloc = al
+			}
+		}
+	})
+	if !r.Anchor(rule, "the line ParseLine returns (a local allocation)", lineAlloc != nil) {
+		return
+	}
+	r.Funcs[c.FuncKey(pl)] = true
+	c.trailingRule(rule, pl, lineAlloc, pl.Params[0])
 }
